@@ -10,6 +10,8 @@ the concrete failing run is `Nv.C01.witness_emptyOnly_writer_beside_reader`.
 namespace Nv.C01
 theorem tie_facts : Nv.Gen.C01.facts = Facts.expected := by decide
 theorem tie_cfg_proved : Proved Nv.Gen.C01.cfg := by decide
+/-- the default ratio (`NewSemMap()` without `WithRwRatio`) satisfies the theorems' hypothesis `1 ≤ rw` -/
+theorem tie_default_ratio : 1 ≤ Nv.Gen.C01.defaultRatio := by decide
 
 theorem tie_excl (rw : Nat) (hrw : 1 ≤ rw) (s : State) (hr : (M Nv.Gen.C01.cfg rw).Reach s) (k : Key) :
     (∃ t, (s k).holders = [(t, rw)]) ∨ ((∀ h ∈ (s k).holders, h.2 = 1) ∧ (s k).holders.length ≤ rw) :=
